@@ -339,6 +339,22 @@ func genC01(seed uint64) (*Scenario, *c01Meta) {
 			g.lines = append(g.lines, g.dml())
 		case k == 6:
 			g.lines = append(g.lines, fmt.Sprintf("IF (SELECT COUNT(*) FROM %s) > %d THEN %s END IF;", g.pickTable(), r.Intn(4), g.dml()))
+		case k == 7 && r.Bool(0.5):
+			// loops that are left or continued from inside: by CONTINUE / BREAK in the first, a middle or the
+			// last iteration, from a nested block, from a nested loop, from a cursor loop
+			at := r.Intn(3)
+			switch r.Intn(5) {
+			case 0:
+				g.lines = append(g.lines, fmt.Sprintf("VAR @i%d := 0; WHILE @i%d < 3 DO @i%d := @i%d + 1; %s IF @i%d = %d THEN CONTINUE; END IF; %s END WHILE;", i, i, i, i, g.dml(), i, at+1, g.dml()))
+			case 1:
+				g.lines = append(g.lines, fmt.Sprintf("VAR @i%d := 0; WHILE @i%d < 3 DO @i%d := @i%d + 1; %s IF @i%d = %d THEN BREAK; END IF; %s END WHILE;", i, i, i, i, g.dml(), i, at+1, g.dml()))
+			case 2:
+				g.lines = append(g.lines, fmt.Sprintf("VAR @i%d := 0; VAR @j%d; WHILE @i%d < 2 DO @i%d := @i%d + 1; @j%d := 0; WHILE @j%d < 2 DO @j%d := @j%d + 1; IF @j%d = %d THEN CONTINUE; END IF; %s END WHILE; %s END WHILE;", i, i, i, i, i, i, i, i, i, i, 1+at%2, g.dml(), g.dml()))
+			case 3:
+				g.lines = append(g.lines, fmt.Sprintf("DECLARE lc%d CURSOR FOR SELECT id FROM t0 WHERE id <= 3; OPEN lc%d; VAR @l%d; WHILE @l%d IN lc%d DO IF @l%d = %d THEN CONTINUE; END IF; %s END WHILE; CLOSE lc%d; DISPOSE CURSOR lc%d;", i, i, i, i, i, i, at+1, g.dml(), i, i))
+			default:
+				g.lines = append(g.lines, fmt.Sprintf("VAR @i%d := 0; WHILE @i%d < 3 DO @i%d := @i%d + 1; CASE WHEN @i%d = %d THEN %s CONTINUE; ELSE %s END CASE; END WHILE;", i, i, i, i, i, at+1, g.dml(), g.dml()))
+			}
 		case k == 7:
 			g.lines = append(g.lines, fmt.Sprintf("VAR @i%d := 0; WHILE @i%d < 2 DO %s @i%d := @i%d + 1; END WHILE;", i, i, g.dml(), i, i))
 		case k == 8:
@@ -697,6 +713,16 @@ func (c01) Eval(t *testing.T, c *Case, dec func(int) *Decider) *Outcome {
 	if !noCommitEvents && (ending == "exit" || (ending == "fail" && p.ExitCode != 0)) && len(obs.snaps) > len(commitDumps) {
 		o.viol(prop, "all-or-nothing", "commit-on-abnormal-end:"+ending,
 			fmt.Sprintf("the procedure ended by %s (%s) after %d COMMIT statement(s), but %d commits were performed: changes made since the last COMMIT were written", ending, firstLine(p.ErrText), len(commitDumps), len(obs.snaps)))
+	}
+	if ending == "normal" && p.ExitCode == 0 && finalDump >= 0 {
+		// "When a procedure ends normally, every table holds on disk exactly the state the procedure last
+		// saw": whatever the commit events say, the reference is the final dump - and a procedure that ends
+		// with code 0 and no message has run all its statements
+		if !done[finalDump] {
+			o.viol(prop, "disk-equals-last-seen", "normal-end-before-the-last-statement",
+				fmt.Sprintf("the procedure ended with exit code 0 and no error before it had run all its statements (final dump %d missing; %d commit(s) performed)", finalDump, len(obs.snaps)))
+		}
+		lastDump = finalDump
 	}
 	if lastDump >= 0 && !done[lastDump] {
 		lastDump = -1 // the run ended while printing that dump
